@@ -299,7 +299,7 @@ def run_impl(mode, case, scratch, slots=1, tag="x", timeout=40.0):
             box["out"] = ["val", v] if type(v) is int else ["nonvalue", type(v).__name__]
         except Exception as ex:  # noqa: BLE001 - the observation
             box["out"] = ["exc", type(ex).__name__, list(ex.args)]
-            if type(ex).__name__ not in KINDS:
+            if type(ex).__name__ not in KINDS or not (ex.args == () or (len(ex.args) == 2 and ex.args[0] == "e")):
                 import traceback
                 box["trace"] = traceback.format_exc()[-1800:]
 
@@ -344,17 +344,28 @@ def run_impl(mode, case, scratch, slots=1, tag="x", timeout=40.0):
     return obs
 
 
+_HANGS = None      # shared counter of runs that hit the time limit (set in the pool workers)
+
+
 def _work(job):
     idx, mode, slots, case, scratch = job
     world.quiet()
     try:
-        return idx, mode, slots, run_impl(mode, case, scratch, slots, tag=str(idx))
+        # a source change that makes retried invocations hang would otherwise cost the full limit per case
+        limit = 20.0 if (_HANGS is None or _HANGS.value < 4) else 3.0
+        obs = run_impl(mode, case, scratch, slots, tag=str(idx), timeout=limit)
+        if _HANGS is not None and (obs["out"] == ["hang"] or obs.get("unfinished")):
+            with _HANGS.get_lock():
+                _HANGS.value += 1
+        return idx, mode, slots, obs
     except Exception as ex:  # noqa: BLE001 - reported as a harness error by the parent
         import traceback
         return idx, mode, slots, {"harness_error": f"{type(ex).__name__}: {ex}", "trace": traceback.format_exc()[-1500:]}
 
 
-def _init_worker():
+def _init_worker(hangs=None):
+    global _HANGS
+    _HANGS = hangs
     import warnings
     warnings.simplefilter("ignore")
     threading.excepthook = lambda a: None
@@ -481,11 +492,29 @@ def judge(case, s_obs, d_obs):
     return out
 
 
+def dist_verdicts(case, m, s_obs, d_obs):
+    """all verdicts of one distributed run: oracle (judge + accounting) and correspondence with run_dist."""
+    mode = d_obs["mode"]
+    found = [(k, w, {}) for k, w in judge(case, s_obs, d_obs)]
+    bad, stale = accounting(case, d_obs)
+    found += [(f"retry-accounting:{mode}:{k}", f"{mode}: {w}", {}) for k, w in bad]
+    got = (canon_out(d_obs["out"]), sorted(e["node"] for e in d_obs["log"]),
+           d_obs["top_retries"] if case["top"] == "call" and d_obs["top_retries"] is not None else 0)
+    want = (m["dist"][0], m["dist"][1], m["dist"][2] if case["top"] == "call" else 0)
+    if got != want:
+        found.append((f"model-mismatch:{mode}", f"{mode} run differs from run_dist: impl {got}, model {want}",
+                      {"impl": got, "model": want}))
+    # the guard of the theorem is decisive: a guarded program must show no lazy finding
+    if m["req"] and any(k.startswith("lazy-sync") for k, _, _ in found):
+        found.append(("guard-too-weak", "req_prog holds but sync mode skipped an invocation", {}))
+    return found, stale
+
+
 # ---------------------------------------------------------------- main
 def build_cases(ctx: Ctx):
     cases = [(name, c) for name, c in corpus_cases()]
-    n_guard = 900 if ctx.thorough else 110
-    n_lazy = 300 if ctx.thorough else 40
+    n_guard = 900 if ctx.thorough else 200
+    n_lazy = 300 if ctx.thorough else 60
     for j in range(n_guard):
         cases.append((f"rnd:{j}", gen_case(ctx.rng, False)))
     for j in range(n_lazy):
@@ -533,7 +562,8 @@ def main(ctx: Ctx) -> int:
                     jobs.append((j, "sqlite", 2, c, scratch))
         ctx.log(f"{len(cases)} cases, {len(jobs)} executions on the implementation ({NWORKERS} worker processes)")
         results: dict = {}
-        with mp.get_context("fork").Pool(NWORKERS, initializer=_init_worker) as pool:
+        fctx = mp.get_context("fork")
+        with fctx.Pool(NWORKERS, initializer=_init_worker, initargs=(fctx.Value("i", 0),)) as pool:
             for idx, mode, slots, obs in pool.imap_unordered(_work, jobs, chunksize=2):
                 results[(idx, mode, slots)] = obs
         errs = [(k, o) for k, o in results.items() if "harness_error" in o]
@@ -542,8 +572,10 @@ def main(ctx: Ctx) -> int:
             raise CheckError(f"{len(errs)} executions failed in the harness, first: {errs[0][0]} {errs[0][1]['harness_error']}\n{errs[0][1]['trace']}")
         stats = {"top": Counter(), "guarded": 0, "unguarded": 0, "outcome": Counter(), "executions": Counter(),
                  "with_retry": 0, "stale_counter_reads": Counter(), "wall_by_mode": Counter(), "runs_by_mode": Counter(),
-                 "statement_kinds": Counter()}
+                 "statement_kinds": Counter(), "transient": []}
         n_eval = 0
+        confirmed: set = set()
+        reruns = [0]
         for j, (name, c) in enumerate(cases):
             s_obs = results[(j, "sync", 1)]
             m = model[j]
@@ -578,23 +610,27 @@ def main(ctx: Ctx) -> int:
                 if d_obs.get("max_slots") != slots:
                     from harness.common import CheckError
                     raise CheckError(f"runner has {d_obs.get('max_slots')} slots, wanted {slots}")
-                verdicts = judge(c, s_obs, d_obs)
-                for key, what in verdicts:
-                    ctx.violation(key, f"[{name}] {what}", drp)
-                bad, stale = accounting(c, d_obs)
-                for key, what in bad:
-                    ctx.violation(f"retry-accounting:{mode}:{key}", f"[{name}] {mode}: {what}", drp)
+                found, stale = dist_verdicts(c, m, s_obs, d_obs)
                 if stale:
                     stats["stale_counter_reads"][mode] += stale
-                got = (canon_out(d_obs["out"]), sorted(e["node"] for e in d_obs["log"]),
-                       d_obs["top_retries"] if c["top"] == "call" and d_obs["top_retries"] is not None else 0)
-                want = (m["dist"][0], m["dist"][1], m["dist"][2] if c["top"] == "call" else 0)
-                if got != want:
-                    ctx.violation(f"model-mismatch:{mode}", f"[{name}] {mode} run differs from run_dist: impl {got}, model {want}",
-                                  dict(drp, impl=got, model=want))
-                # the guard of the theorem is decisive: a guarded program must show no lazy finding
-                if m["req"] and any(k.startswith("lazy-sync") for k, _ in verdicts):
-                    ctx.violation("guard-too-weak", f"[{name}] req_prog holds but sync mode skipped an invocation", drp)
+                fresh = [f for f in found if f[0] not in ctx._known and f[0] not in confirmed]
+                if fresh and reruns[0] < 24:
+                    # a verdict must reproduce: re-run the same case (fresh app, this process) twice; a genuine
+                    # violation of the property by the source is deterministic for these pure programs
+                    again = set()
+                    for r in range(2):
+                        reruns[0] += 1
+                        d2 = run_impl(mode, c, scratch, slots, tag=f"{j}_re{r}", timeout=8.0)
+                        again |= {f[0] for f in dist_verdicts(c, m, s_obs, d2)[0]}
+                    for f in fresh:
+                        if f[0] in again:
+                            confirmed.add(f[0])
+                        else:
+                            stats["transient"].append({"case": name, "mode": mode, "slots": slots, "key": f[0], "what": f[1],
+                                                       "trace": d_obs.get("trace")})
+                found = [f for f in found if f[0] in ctx._known or f[0] in confirmed]
+                for key, what, extra in found:
+                    ctx.violation(key, f"[{name}] {what}", dict(drp, **extra))
             if len(ctx.coverage["samples"]) < 6 and name.startswith("rnd") and len(s_obs["log"]) >= 4:
                 ctx.sample({"case": c, "sync": {"out": s_obs["out"], "executions": dict(counts_of(s_obs)), "num_retries": s_obs["top_retries"]},
                             "mem": {"out": results[(j, 'mem', 1)]["out"], "executions": dict(counts_of(results[(j, 'mem', 1)]))},
@@ -613,6 +649,7 @@ def main(ctx: Ctx) -> int:
             "runs": dict(stats["runs_by_mode"]),
             "cpu_seconds_by_mode": {k: round(v, 1) for k, v in stats["wall_by_mode"].items()},
         }
+        ctx.notes["transient_unreproduced"] = stats["transient"][:10]
         ctx.notes["in_body_num_retries_stale_reads"] = {
             "by_mode": dict(stats["stale_counter_reads"]),
             "meaning": "executions whose body read invocation.num_retries != execution number - 1 (not a verdict: "
